@@ -4562,7 +4562,10 @@ func (c *linkerContext) convertStmtsForChunk(sourceIndex uint32, stmtList *stmtL
 
 					// Be careful to not modify the original statement
 					s2 = &js_ast.SFunction{Fn: s2.Fn}
-					s2.Fn.Name = &s.DefaultName
+					if s2.Fn.Name == nil || s2.Fn.Name.Ref != s.DefaultName.Ref {
+						// Keep the location of an existing name for source maps
+						s2.Fn.Name = &s.DefaultName
+					}
 
 					stmt = js_ast.Stmt{Loc: s.Value.Loc, Data: s2}
 
@@ -4572,7 +4575,10 @@ func (c *linkerContext) convertStmtsForChunk(sourceIndex uint32, stmtList *stmtL
 
 					// Be careful to not modify the original statement
 					s2 = &js_ast.SClass{Class: s2.Class}
-					s2.Class.Name = &s.DefaultName
+					if s2.Class.Name == nil || s2.Class.Name.Ref != s.DefaultName.Ref {
+						// Keep the location of an existing name for source maps
+						s2.Class.Name = &s.DefaultName
+					}
 
 					stmt = js_ast.Stmt{Loc: s.Value.Loc, Data: s2}
 
